@@ -941,6 +941,23 @@ func checkCompactAnswerNamesRecord(p *Prog, r *Roles, ck *compactKeyRole, res *R
 	bp := p.ssaPkg("pkg/backend")
 	// functions that (transitively, within pkg/backend) write the compaction record, with the parameter that carries the revision
 	writers := map[*ssa.Function]bool{}
+	// the key may be handed to the writing helper by its caller
+	isKeyUp := func(key ssa.Value) bool {
+		prm, ok := resolve(key).(*ssa.Parameter)
+		if !ok {
+			return false
+		}
+		acts := p.paramActuals(prm)
+		if len(acts) == 0 {
+			return false
+		}
+		for _, a := range acts {
+			if !ck.isKey(a) {
+				return false
+			}
+		}
+		return true
+	}
 	for _, f := range p.AllFuncs {
 		if f.Pkg != bp {
 			continue
@@ -951,7 +968,7 @@ func checkCompactAnswerNamesRecord(p *Prog, r *Roles, ck *compactKeyRole, res *R
 			case r.is(c, r.BWCAS), r.is(c, r.BWPutIfNotExist), r.is(c, r.BWPut):
 				key = argForSigParam(c, 0)
 			}
-			if key != nil && c.Common().IsInvoke() && ck.isKey(key) {
+			if key != nil && c.Common().IsInvoke() && (ck.isKey(key) || isKeyUp(key)) {
 				writers[f] = true
 			}
 		}
